@@ -384,26 +384,31 @@ class ResourcesAdapter:
                     else:
                         item.append((mid, pstr) + self._loaded_den(v, ids))
                     # m['a']['b']: a handle in the middle is loaded and its value indexed — some error, any class
-                    for h in handles:
-                        h.clear()
-                    env.loaded = []
-                    try:
-                        v = m
-                        for k1 in parts:
-                            v = v[k1]
-                    except Exception:           # noqa
-                        pass
+                    # (for a one-name path this is the very call made above)
+                    if len(parts) == 1:
+                        if item and item[-1][:2] == (mid, pstr) and item[-1][2] != 'exc':
+                            chain.append(item[-1])
                     else:
-                        chain.append((mid, pstr) + self._loaded_den(v, ids))
+                        for h in handles:
+                            h.clear()
+                        env.loaded = []
+                        try:
+                            v = m
+                            for k1 in parts:
+                                v = v[k1]
+                        except Exception:           # noqa
+                            pass
+                        else:
+                            chain.append((mid, pstr) + self._loaded_den(v, ids))
                     # m.get('a/b')()  (a map is not called; the default None means absent)
-                    for h in handles:
-                        h.clear()
                     env.loaded = []
                     try:
                         v = m.get(key)
                         if v is None:
                             continue
                         if isinstance(v, Handle):
+                            for h in handles:
+                                h.clear()
                             v = v()
                     except Exception as ex:     # noqa
                         call.append((mid, pstr, 'exc', type(ex).__name__))
